@@ -130,6 +130,23 @@ def check_truthiness(prog: Program, rep, rule: str) -> None:
                         and _is_zero_literal(consumer.values[1]):
                     rep.ok(rule, where, f'{f.qualname}({pname}): `{text}` - falling back to the bare 0 maps 0 to 0')
                     continue
+                if kind == 'test' and isinstance(consumer, ast.If) and len(consumer.body) == 1 and len(consumer.orelse) == 1 \
+                        and all(isinstance(s_, ast.Assign) and len(s_.targets) == 1 and isinstance(s_.targets[0], ast.Name)
+                                for s_ in (consumer.body[0], consumer.orelse[0])) \
+                        and consumer.body[0].targets[0].id == consumer.orelse[0].targets[0].id \
+                        and isinstance(consumer.body[0].value, ast.Name) and consumer.body[0].value.id == pname \
+                        and _is_zero_literal(consumer.orelse[0].value):
+                    rep.ok(rule, where, f'{f.qualname}({pname}): `{text}` picks {pname} or the bare 0 - the same as `{pname} or 0`')
+                    continue
+                if kind == 'test' and isinstance(consumer, ast.IfExp) and isinstance(consumer.body, ast.Name) \
+                        and consumer.body.id == pname and _is_zero_literal(consumer.orelse):
+                    rep.ok(rule, where, f'{f.qualname}({pname}): `{text}` - the same as `{pname} or 0`')
+                    continue
+                if kind == 'not' and isinstance(parent(consumer), ast.IfExp) and parent(consumer).test is consumer \
+                        and _is_zero_literal(parent(consumer).body) and isinstance(parent(consumer).orelse, ast.Name) \
+                        and parent(consumer).orelse.id == pname:
+                    rep.ok(rule, where, f'{f.qualname}({pname}): `{text}` - the same as `{pname} or 0`')
+                    continue
                 default = f.default_of(pname)
                 if default is not None and _is_zero_literal(default):
                     rep.ok(rule, where, f'{f.qualname}({pname}): `{text}` - the declared default is the bare 0 itself, '
@@ -288,6 +305,17 @@ def check_slots(prog: Program, rep, rule: str) -> None:
             if isinstance(n, ast.Attribute) and isinstance(n.value, ast.Name) and n.value.id == 'PreferredUnits' \
                     and isinstance(n.ctx, ast.Load):
                 used.add(n.attr)
+            elif isinstance(n, ast.Call) and isinstance(n.func, ast.Name) and n.func.id == 'getattr' and len(n.args) >= 2 \
+                    and norm(n.args[0]) == 'PreferredUnits':
+                if isinstance(n.args[1], ast.Constant) and isinstance(n.args[1].value, str):
+                    used.add(n.args[1].value)
+                else:
+                    # a name taken from a literal table of the package: every string in the table counts as read
+                    f_ = find_func_for_node(prog, mod, n)
+                    if f_ is not None:
+                        for c_ in ast.walk(f_.node):
+                            if isinstance(c_, ast.Constant) and isinstance(c_.value, str) and c_.value in SLOT_DIMENSION:
+                                used.add(c_.value)
     for slot in SLOT_DIMENSION:
         if slot not in used:
             rep.fail(rule, umod.path, pu.node.lineno, 'PreferredUnits', f'unused:{slot}',
@@ -324,6 +352,15 @@ def check_no_leak(prog: Program, rep, rule: str) -> None:
                 if why:
                     rep.ok(rule, mod.where(n), f'{fq}: PreferredUnits.{n.attr} read for output ({why})')
                     continue
+                if f is not None and isinstance(p, (ast.Assign, ast.AnnAssign)) and p.value is n:
+                    # kept in a local that is only ever called: the same coercion under another name
+                    tg = p.targets[0] if isinstance(p, ast.Assign) and len(p.targets) == 1 else getattr(p, 'target', None)
+                    if isinstance(tg, ast.Name):
+                        loads = [x for x in ast.walk(f.node) if isinstance(x, ast.Name) and x.id == tg.id and isinstance(x.ctx, ast.Load)]
+                        stores = [x for x in ast.walk(f.node) if isinstance(x, ast.Name) and x.id == tg.id and isinstance(x.ctx, ast.Store)]
+                        if loads and len(stores) == 1 and all(isinstance(parent(x), ast.Call) and parent(x).func is x for x in loads):
+                            rep.ok(rule, mod.where(n), f'{fq}: PreferredUnits.{n.attr} kept in `{tg.id}`, which is only called (coercion)')
+                            continue
                 rep.fail(rule, mod.path, n.lineno, fq, f'PreferredUnits.{n.attr}',
                          f'the preferred unit `{n.attr}` is read outside a coercion and outside the presentation '
                          f'functions: `{norm(enclosing(n))[:90]}` - a number on the compute path would depend on the '
@@ -351,6 +388,23 @@ def check_no_leak(prog: Program, rep, rule: str) -> None:
                     params |= set(g.params)
                     g = g.outer
                 lam = [a for a in ancestors(n) if isinstance(a, ast.Lambda)]
+                if isinstance(operand, ast.Name) and f is not None and operand.id not in params:
+                    # a local (or module constant) that only ever names a literal unit
+                    vals = [a_.value for a_ in ast.walk(f.node) if isinstance(a_, (ast.Assign, ast.AnnAssign)) and a_.value is not None
+                            and any(isinstance(t_, ast.Name) and t_.id == operand.id
+                                    for t_ in (a_.targets if isinstance(a_, ast.Assign) else [a_.target]))]
+                    for a_ in ast.walk(f.node):        # a, b = U1, U2
+                        if isinstance(a_, ast.Assign) and len(a_.targets) == 1 and isinstance(a_.targets[0], ast.Tuple) \
+                                and isinstance(a_.value, ast.Tuple) and len(a_.targets[0].elts) == len(a_.value.elts):
+                            for t_, v_ in zip(a_.targets[0].elts, a_.value.elts):
+                                if isinstance(t_, ast.Name) and t_.id == operand.id:
+                                    vals.append(v_)
+                    if not vals:
+                        cv = prog.const_value(mod, operand.id)
+                        vals = [cv] if cv is not None else []
+                    if vals and all(C.unit_of_expr(prog, mod, v_) is not None for v_ in vals):
+                        rep.ok(rule, mod.where(n), f'{fq}: `{operand.id}` names the literal unit {norm(vals[0])}')
+                        continue
                 if isinstance(operand, ast.Name) and operand.id in params:
                     rep.ok(rule, mod.where(n), f'{fq}: unit parameter {operand.id}')
                     continue
